@@ -26,18 +26,6 @@ def gen_cases(wd, cfgname, name):
 def sig_of(e, reason, where):
     """Signature of a rejected event: reason + the offending token's kind and text (or,
     when no single token is responsible, the front-end and the text)."""
-    if where and 1 <= where <= len(e["toks"]):
-        t = e["toks"][where - 1]
-        txt = e.get("text", "")
-        sig = {"kind": reason, "tok_kind": t["k"], "tok_text": txt[t["s"]:t["e"]].lower()[:60],
-               "isolate_english": bool(e.get("wrap", 0) & 2)}
-        # a token of a markup front-end whose text holds characters that belong to no token (markup between two pieces
-        # of prose): a condensing pass merged neighbours of the token LIST that are not neighbours in the TEXT
-        if e.get("front", "plain") != "plain" and reason == "shape" and t["k"] in ("Word", "Number", "Ellipsis", "Punctuation"):
-            inner = txt[t["s"]:t["e"]]
-            if any(ch in inner for ch in "\"[](){}<>:|*_`#") or (" " in inner and t["k"] != "Word"):
-                sig = {"kind": reason, "tok_kind": t["k"], "merged_across_a_gap": True, "front_is_plain": False}
-        return sig
     if reason == "tokens-overlap-or-out-of-order" and e.get("front") == "typst":
         # which Typst construct holds the first token that starts before its predecessor ends?
         import re
@@ -54,6 +42,18 @@ def sig_of(e, reason, where):
                         return {"kind": reason, "front": "typst", "typst_construct": "call-whose-ignored-arguments-come-first"}
                     break
                 prev = t
+    if where and 1 <= where <= len(e["toks"]):
+        t = e["toks"][where - 1]
+        txt = e.get("text", "")
+        sig = {"kind": reason, "tok_kind": t["k"], "tok_text": txt[t["s"]:t["e"]].lower()[:60],
+               "isolate_english": bool(e.get("wrap", 0) & 2)}
+        # a token of a markup front-end whose text holds characters that belong to no token (markup between two pieces
+        # of prose): a condensing pass merged neighbours of the token LIST that are not neighbours in the TEXT
+        if e.get("front", "plain") != "plain" and reason == "shape" and t["k"] in ("Word", "Number", "Ellipsis", "Punctuation"):
+            inner = txt[t["s"]:t["e"]]
+            if any(ch in inner for ch in "\"[](){}<>:|*_`#") or (" " in inner and t["k"] != "Word"):
+                sig = {"kind": reason, "tok_kind": t["k"], "merged_across_a_gap": True, "front_is_plain": False}
+        return sig
     return {"kind": reason, "front": e.get("front", "plain"), "text": e.get("text", "")[:80]}
 
 
